@@ -94,6 +94,40 @@ CHECKS['C08'] = {
     'unproved': ['AggregateExecutionEngine::execute_result DISTINCT handling (with and without HAVING)'],
 }
 
+CHECKS['C07'] = {
+    'verus_units': ['engine'],
+    'clause_prefixes': ['c07', 'out.'],
+    'technique': 'contract-based deductive verification (Verus): ExecutionEngine::update_limit / reached_limit / execute extracted from /repo; prefix lemma over the update_limit contract',
+    'claim': 'Proof for all outputs, limits and row counters that update_limit keeps exactly the prefix of rows the LIMIT still allows, counts every kept row (NULL-only rows included), and raises reached_limit exactly when the count reaches n (at once for n = 0 via reached_limit()); that execute applies it to every SELECT line and truncates the final aggregate table to the first n groups; lemma: over any sequence of calls the emitted rows are the first n rows of the unlimited output. The reader loops that must stop consuming input are covered by the executor unit (C12) where claimed.',
+    'note': 'Trusted: Vec::truncate / drain specifications, the SELECT and aggregate engines as abstract state machines. The join branch of execute_select is stubbed (assumed), so fan-out rows are covered only through update_limit\'s contract on whatever rows arrive.',
+    'level': 'proof',
+    'explanation': 'update_limit is verified verbatim; execute is verified verbatim against callee contracts; lemma_limit_prefix turns the per-call contract into "first n rows of the unlimited result".',
+    'trusted': COMMON_TRUST + ['join branch of execute_select/execute_aggregate* replaced by an assumed stub (rule E3b) because Verus rejects FnMut closures that capture &mut state'],
+    'unproved': ['join branches (execute_join closures)', 'FollowFileExecutor::execute loop'],
+}
+CHECKS['C06'] = {
+    'verus_units': ['engine'],
+    'clause_prefixes': ['c06'],
+    'technique': 'contract-based deductive verification (Verus): frame postconditions on ExecutionEngine::execute_select / execute_aggregate / execute_aggregate_update extracted from /repo',
+    'claim': 'Proof that for a line whose extracted row has no non-NULL column (which includes every NOT NULL failure, see C01) the three per-line entry points return an empty output and leave the whole engine (DISTINCT memory, aggregation state, row counter) unchanged, for all tables, statements and lines. Consequently inserting or deleting such lines cannot change any later result of that engine.',
+    'note': 'Trusted: Row::any_result is a stand-in in the Verus unit (Iterator::any has no specification); the real one-liner is checked by a bounded Kani harness where it terminates. TableDefinition::extract is abstract here (unit extract proves the NOT NULL cut). Loading of the joined file goes through the same execute_select, so it is covered by the same contract.',
+    'level': 'proof',
+    'explanation': 'admitted(row) := exists a non-NULL column; the contracts say !admitted ==> output empty and *final(self) == *old(self).',
+    'trusted': COMMON_TRUST + ['Row::any_result stand-in (r == exists non-NULL column)'],
+    'unproved': ['Row::any_result body (Iterator::any)', 'join branches'],
+}
+CHECKS['C11'] = {
+    'verus_units': ['engine'],
+    'clause_prefixes': ['c11'],
+    'technique': 'contract-based deductive verification (Verus): ExecutionEngine::execute dispatch, execution_config, ExecutionConfig constructors, AggregateExecutionEngine::execute extracted from /repo; induction lemma over the per-line contracts',
+    'claim': 'Proof (dispatch only) that with {update,result} each line folds into the aggregation state exactly as with {update} alone and the table shown is the table of the state after that line, that {result} alone shows the table of the current state without changing it, and (lemma) that the state after k lines is therefore identical in follow and batch mode. Assumes execute_result is a function of the aggregation state that leaves it unchanged.',
+    'note': 'ASSUMED, not proved: AggregateExecutionEngine::execute_result returns a function of the aggregation state and does not modify it (including its DISTINCT memory) - that function is outside the verified subset. Non-aggregate statements: rows emitted for line k depend on line k and the DISTINCT memory only (select unit).',
+    'level': 'proof',
+    'explanation': 'Thin, deliberately: the claim is about the dispatch in ExecutionEngine::execute and AggregateExecutionEngine::execute.',
+    'trusted': COMMON_TRUST + ['AggregateExecutionEngine::execute_update / execute_result as an abstract state machine (agg_step, agg_table)'],
+    'unproved': ['AggregateExecutionEngine::execute_result purity', 'FollowFileExecutor::execute'],
+}
+
 NOT_APPLICABLE = {
     'C17': 'Printed records: OutputPrinter::print / Display for Value / JSON rendering are format!/write!/serde_json string construction; Verus has no specification of formatted output and rejects the constructs, Kani does not terminate on string code here. No contract within reach expresses the property.',
     'C18': 'Determinism / hash-seed independence is a 2-safety property over runs whose only threat is iteration over std HashMap; the iterating functions are outside Verus\' accepted subset and Kani must stub RandomState to a constant, which assumes the property away.',
